@@ -7,7 +7,7 @@ from __future__ import annotations
 
 from crosshair.core import register_patch
 
-from .plugins import arith, bitops, fmtint, fpexact
+from .plugins import arith, bitops, fmtint, fpexact, seqwindow
 
 STUBS_IN_FORCE: list[str] = []
 
@@ -17,6 +17,8 @@ def install_plugins(fmt=True):
     arith.install()
     STUBS_IN_FORCE.append("plugin:bitops (exact LIA encodings of | & ^ with solver-checked side conditions)")
     STUBS_IN_FORCE.append("plugin:arith (fork-free div/mod by positive constants)")
+    seqwindow.install()
+    STUBS_IN_FORCE.append("plugin:seqwindow (symbolic index into a long concrete table: if-then-else chain restricted to the solver-proved reachable index window)")
     fpexact.install()
     STUBS_IN_FORCE.append("plugin:fpexact (int(a / c) for |a/c| < 2**31, c < 2**20 as exact truncation; obligation solver-checked)")
     if fmt:
@@ -81,12 +83,20 @@ def standard(fmt=True):
     stub_range_message()
 
 
+class Hang(Exception):
+    """A reader kept asking an exhausted stream for more: the real code would spin for ever (raised in both execution modes)."""
+
+
 class Stream:
-    """List-backed binary stream: keeps written/read bytes symbolic (io.BytesIO is a C boundary)."""
+    """List-backed binary stream: keeps written/read bytes symbolic (io.BytesIO is a C boundary).  Counts consecutive reads at end of
+    data: more than EOF_READ_LIMIT of them is reported as a hang."""
+
+    EOF_READ_LIMIT = 64
 
     def __init__(self, buf=None):
         self.buf = list(buf or [])
         self.pos = 0
+        self.eof_reads = 0
 
     def write(self, b):
         for x in b:
@@ -94,10 +104,24 @@ class Stream:
         return len(b)
 
     def read(self, n=-1):
-        if n is None or n < 0:
-            n = len(self.buf) - self.pos
-        out = self.buf[self.pos:self.pos + n]
-        self.pos += len(out)
+        avail = len(self.buf) - self.pos
+        if avail <= 0:
+            self.eof_reads += 1
+            if self.eof_reads > self.EOF_READ_LIMIT:
+                raise Hang(f"{self.eof_reads} consecutive reads at end of data")
+            return []
+        self.eof_reads = 0
+        if n is None or n < 0 or n >= avail:
+            take = avail
+        else:
+            # a symbolic count smaller than what is left: fork on its value (a slice bound would be realised over its whole domain)
+            take = 0
+            for k in range(avail):
+                if n == k:
+                    take = k
+                    break
+        out = self.buf[self.pos:self.pos + take]
+        self.pos += take
         return out
 
     def tell(self):
